@@ -14,9 +14,11 @@ ENGINES = {
     'sfwrap': dict(quick=600, thorough=20000),
     'caches': dict(quick=1500, thorough=40000),
     'validators': dict(quick=20000, thorough=400000),
+    'aead': dict(quick=150, thorough=3000),
 }
 
 PROPS = {
+    'C02': dict(spec_mods=['SsoSpec.C02'], engines=['aead']),
     'C11': dict(spec_mods=['SsoSpec.C11'], engines=['validators']),
     'C15': dict(spec_mods=['SsoSpec.C15'], engines=['breaker']),
     'C16': dict(spec_mods=['SsoSpec.C16'], engines=['sf', 'sfwrap']),
@@ -26,6 +28,10 @@ PROPS = {
 # model branches every run must reach (engine:branch); a branch the implementation can no longer reach
 # means it no longer behaves like the model on the prelude's representative.
 FLOORS = {
+    'C02': ['aead:genuine/accepted', 'aead:genuine-again/accepted', 'aead:other-key/rejected', 'aead:bitflip/rejected', 'aead:truncate-string/rejected',
+            'aead:truncate-bytes/rejected', 'aead:extend/rejected', 'aead:newline/rejected', 'aead:cr/rejected', 'aead:trailing-bits/rejected',
+            'aead:swap-nonce-body/rejected', 'aead:nonce-only/rejected', 'aead:body-from-other-key/rejected', 'aead:nonce-from-other-seal/rejected',
+            'aead:random-bytes/rejected', 'aead:random-string/rejected', 'aead:empty/rejected'],
     'C11': ['validators:addr/ok', 'validators:addr/denied', 'validators:addr/invalid-email', 'validators:domain/ok', 'validators:domain/denied',
             'validators:domain/invalid-email'],
     'C17': ['caches:gc/hit', 'caches:gc/miss', 'caches:gc/error', 'caches:gc/purge', 'caches:fc/updBegin/began', 'caches:fc/updBegin/busy',
@@ -55,6 +61,10 @@ COMMON_TB = [
 ]
 
 TB = {
+    'C02': ["cryptographic assumptions, stated as the fields of the `AEAD` structure every theorem is parameterised by (satisfiable: AEAD.toy): AES-CMAC-SIV with 16-byte nonces is correct, authentic (INT-CTXT: only genuine ciphertexts open, only under their key and nonce) and key-separating; confidentiality ('the sealed form does not reveal the plaintext') is not expressible in an executable model and is assumed outright; crypto/rand nonces do not repeat",
+            "gzip and encoding/json are an abstract lossless `Codec` (dec (enc v) = some v); json's leniency on *decoding* is irrelevant because only genuine plaintexts reach it (authenticity)",
+            "Go's encoding/base64 is modelled (Prim/Base64.lean) and compared byte for byte with the library on every variant string",
+            "modelled: internal/pkg/aead/aead.go Marshal/Unmarshal/Encrypt/Decrypt framing, sessions.MarshalSession/UnmarshalSession; the mutex in MiscreantCipher is not modelled (TestCipherDataRace covers it)"],
     'C11': ["strings.ToLower is uninterpreted in the theorems and shipped as an oracle table by the harness (computed by calling the library directly)",
             "modelled: internal/pkg/validators/*.go, the validator list built in proxy.New, the 'not all failed' test of OAuthCallback and the per-request loop of Authenticate"],
     'C17': ["Go's sync.RWMutex semantics: the two locked sections of Update and the locked section of RefreshLoop are atomic, fillFunc runs outside the lock (skeletons re-extracted and compared on every run)",
@@ -71,6 +81,7 @@ TB = {
 }
 
 RULES = {
+    'C02': "per case one value (session or flow record; empty, Unicode, NUL, 300-byte fields, up to 40 groups) sealed twice under key 1 and once under key 2; variants of the sealed string: every single-bit flip and every truncation (first 3 cases; 48 random flips and sampled truncations otherwise), byte truncations/prefix drops, extensions/prependings by alphabet chars, '=', CR, LF, space, NUL, std alphabet, padded forms, CR/LF insertion at 5 positions and between all chars, every trailing-bit variant of the last character, nonce/body swap, nonce only, body only, nonce from the other seal, body from the other key, empty, random bytes/strings; non-trivial = always (each case opens the genuine value); distinct = distinct case hash",
     'C11': "validators: rule lists of 0-3 entries (addresses or domains, '*' alone and among others) x e-mails from a grammar (case variants, Unicode with special case mappings, several '@', empty local part, no '@', look-alike and sub-domains, trailing '*'), one third constructed to hit; non-trivial = non-empty rules and non-empty e-mail; distinct = distinct case hash",
     'C17': "three case kinds, one third each: gc = 4-20 questions/purges over 2-3 users x permuted subsets of 3-4 group names with directory answers/errors; fc = 5-30 lockstep events (Update begin/end with ok/notFound/err, RefreshLoop, loop fill end, Stop, Get) over 1-3 groups and 4 caller threads; mem = random cache contents x asked subsets x directory answers for Google and Cognito; fixed prelude covers every branch; non-trivial = a cache hit (gc), a fill began (fc), a partly cached question (mem); distinct = distinct case hash",
     'C16': "sf: schedules over 2-8 threads x 1-3 keys (arrive | fnReturn v | remove | wake), arrivals before/while/after the leader runs and inside the done/remove window, values and errors; sfwrap: 2-5 callers per case over every coalesced method of both middlewares with tokens/emails/group sets drawn to collide or differ (incl. ':' and ',' in names, permuted group order), executions held until all callers arrived; non-trivial = at least one caller joined another's call; distinct = distinct case hash",
@@ -78,6 +89,7 @@ RULES = {
 }
 
 ASSUME = {
+    'C02': ["AES-CMAC-SIV is INT-CTXT and key-separating; confidentiality assumed", "crypto/rand nonces are fresh", "gzip/json round trip on sealed values"],
     'C11': ["strings.ToLower may be any function (theorems quantify over it)", "redeemCode rejects an empty e-mail before validators run (modelled; checked in proxyflow)"],
     'C17': ["mutex atomicity; syncmap linearizability", "sort.Strings is a sorted permutation (harness ships the sorted list)", "timer-driven events are nondeterministic events of the model, real-time bounds not claimed"],
     'C16': ["mutex / WaitGroup atomicity and happens-before as documented by Go", "sort.Strings returns a sorted permutation (sortedGroups is computed by the harness with the same library call)",
